@@ -1,6 +1,6 @@
 """Property -> rules wiring and MANIFEST metadata."""
 from . import facts
-from .rules import f5_trace, f6_kinds, f7_roots, f4_gc, f4_chan, f4_sched, f4_vm, f1_isa, f9_casts, f10_parity, f2_emit, f4_exc, f4_cache, f4_obj, f11_peephole
+from .rules import f5_trace, f6_kinds, f7_roots, f4_gc, f4_chan, f4_sched, f4_vm, f1_isa, f9_casts, f10_parity, f2_emit, f4_exc, f4_cache, f4_obj, f11_peephole, f8_hazards
 
 
 def D(rec):
@@ -16,6 +16,15 @@ def c05(rec, tier):
     f7_roots.run(rec, F)
     f4_gc.gc_phase_order(rec, F)
     f4_gc.alloc_rooting(rec, F)
+    f8_hazards.run(rec, F)
+    if tier == "thorough":
+        try:
+            NB = facts.load("nan_boxing")
+            rec.configs.add("nan_boxing")
+            f5_trace.run(rec, NB)
+            f8_hazards.run(rec, NB)
+        except facts.ExtractError:
+            pass  # reported by C14
 
 
 def c09(rec, tier):
